@@ -20,6 +20,26 @@ func genC07(rt *rapid.T, params harness.GenParams) *harness.Program {
 	tp := params
 	tp.MaxOps = params.MaxOps + 4
 	tx := harness.GenTx(rt, tp)
+	if rapid.IntRange(0, 5).Draw(rt, "freeAtEnd") == 0 {
+		// the committed state has free pages right below the data end marker; T allocates across the
+		// end marker (pages from the free list and new pages) and frees some of the new pages that are
+		// not the last ones: rollback has to untangle free regions that straddle the old end marker
+		nfree := rapid.IntRange(1, 3).Draw(rt, "nfree")
+		var fr []harness.Op
+		for i := 0; i < nfree; i++ {
+			fr = append(fr, harness.Op{K: harness.OpFree, A: 0, B: 1})
+		}
+		prog.Items = append(prog.Items,
+			harness.Item{Tx: &harness.Tx{Ops: []harness.Op{{K: harness.OpAlloc, A: rapid.IntRange(4, 9).Draw(rt, "pre")}, {K: harness.OpWrite, A: 0, C: 51}, {K: harness.OpWrite, A: 1, C: 52}}, End: harness.EndCommit}},
+			harness.Item{Tx: &harness.Tx{Ops: fr, End: harness.EndCommit}})
+		n := nfree + rapid.IntRange(2, 5).Draw(rt, "nnew")
+		ops := []harness.Op{{K: harness.OpAlloc, A: n}}
+		for i, k := 0, rapid.IntRange(1, 3).Draw(rt, "kfree"); i < k; i++ {
+			// count from the end, but never the very last page: 1 .. n-nfree-1 are new pages
+			ops = append(ops, harness.Op{K: harness.OpFree, A: rapid.IntRange(1, n-nfree-1).Draw(rt, "which"), B: 1})
+		}
+		tx.Ops = append(ops, tx.Ops...)
+	}
 	switch rapid.IntRange(0, 5).Draw(rt, "Tend") {
 	case 0, 1, 2:
 		tx.End = harness.EndRollback
